@@ -253,6 +253,12 @@ func checkC09(c *Ctx) {
 			} else {
 				// (an empty matrix is accepted without any entry being looked at: only paths through the test count)
 				c.guard(p, "C09.guard", what, f, GuardSpec{Through: site, ValAssumes: []ValAssume{{Name: "compression flag of the entry (byte & 0x80)", Val: latInt(128), Match: isFlag}}})
+				// ... of every entry: the test is made in each iteration of the decoding loop (hoisted out of
+				// the loop it would look at the first entry only)
+				c.loopPassesThrough(p, "C09.guard", "the compression flag is examined for every entry", f, nil, "byte & 0x80", func(in ssa.Instruction) bool {
+					v, ok := in.(ssa.Value)
+					return ok && isFlag(v, f)
+				})
 			}
 		}
 		c.guardEachSite(p, "C09.guard", "every matrix entry must decode as a group element", f, -1, latNonNil, "(*ecc/bls12381.G1).SetBytes", "(*ecc/bls12381.G2).SetBytes")
